@@ -17,7 +17,8 @@ package dhcpv4
 //   - a Modifier value that is none of the library's closures is a caller-supplied one: "contract type Modifier" is the
 //     most adversarial one for the ordering claim - it overwrites every header field and the whole option map with values
 //     that depend only on the function value. A builder called with one such modifier must return exactly what that
-//     modifier left behind, so nothing the builder does can come after it.
+//     modifier left behind, so nothing the builder does can come after it. These postconditions are labelled "local-":
+//     they are proved for the model modifier and are not handed to callers of the builders (whose modifiers are others).
 
 // ---------- interface methods by dynamic type ----------
 
@@ -189,7 +190,7 @@ func userVal(k uint8) string { return "" }
 //@   ensures[echo-61] err == nil && len(modifiers) == 0 ==> (request.Options[61] != nil ==> has(result.Options, 61) && result.Options[61] == request.Options[61]) && (request.Options[61] == nil ==> !has(result.Options, 61))
 //@   ensures[nothing-else] err == nil && len(modifiers) == 0 ==> (forall k uint8 :: {mapdom(result.Options, k)} k != 82 && k != 61 ==> !has(result.Options, k))
 //@   ensures[request-unchanged] unchanged(request) && unchanged(request.Options)
-//@   ensures[modifiers-last] err == nil && len(modifiers) == 1 && len(userStr(3)) == 4 ==> userWrote(result)
+//@   ensures[local-modifiers-last] err == nil && len(modifiers) == 1 && len(userStr(3)) == 4 ==> userWrote(result)
 
 // WithRequestedOptions: the parameter request list (option 55) is present afterwards; every other option is untouched
 //@ contract WithRequestedOptions$1
@@ -218,7 +219,7 @@ func userVal(k uint8) string { return "" }
 //@   ensures[prl] defaultsOnly(err, modifiers) ==> has(result.Options, 55)
 //@   ensures[nothing-else] defaultsOnly(err, modifiers) ==> (forall k uint8 :: {mapdom(result.Options, k)} k != 50 && k != 53 && k != 54 && k != 55 ==> !has(result.Options, k))
 //@   ensures[offer-unchanged] unchanged(offer) && unchanged(offer.Options)
-//@   ensures[modifiers-last] err == nil && len(modifiers) == 1 && len(userStr(3)) == 4 ==> userWrote(result)
+//@   ensures[local-modifiers-last] err == nil && len(modifiers) == 1 && len(userStr(3)) == 4 ==> userWrote(result)
 
 // NewRenewFromAck (RFC 2131 4.3.2, RENEWING): DHCPREQUEST with ciaddr = the leased address, unicast, no requested-address
 // and no server-identifier option, parameter request list present.
@@ -233,7 +234,7 @@ func userVal(k uint8) string { return "" }
 //@   ensures[no-50-54] defaultsOnly(err, modifiers) ==> !has(result.Options, 50) && !has(result.Options, 54) && has(result.Options, 55)
 //@   ensures[nothing-else] defaultsOnly(err, modifiers) ==> (forall k uint8 :: {mapdom(result.Options, k)} k != 53 && k != 55 ==> !has(result.Options, k))
 //@   ensures[ack-unchanged] unchanged(ack) && unchanged(ack.Options)
-//@   ensures[modifiers-last] err == nil && len(modifiers) == 1 && len(userStr(3)) == 4 ==> userWrote(result)
+//@   ensures[local-modifiers-last] err == nil && len(modifiers) == 1 && len(userStr(3)) == 4 ==> userWrote(result)
 
 // NewReleaseFromACK (RFC 2131 4.4.4): DHCPRELEASE, a BOOTREQUEST, ciaddr = the leased address, the lease's hardware
 // address, unicast, server identifier of the ACK (the very value) when it has one.
@@ -246,7 +247,7 @@ func userVal(k uint8) string { return "" }
 //@   ensures[server-id] defaultsOnly(err, modifiers) ==> (ack.Options[54] != nil ==> has(result.Options, 54) && result.Options[54] == ack.Options[54]) && (ack.Options[54] == nil ==> !has(result.Options, 54))
 //@   ensures[nothing-else] defaultsOnly(err, modifiers) ==> (forall k uint8 :: {mapdom(result.Options, k)} k != 53 && k != 54 ==> !has(result.Options, k))
 //@   ensures[ack-unchanged] unchanged(ack) && unchanged(ack.Options)
-//@   ensures[modifiers-last] err == nil && len(modifiers) == 1 && len(userStr(3)) == 4 ==> userWrote(result)
+//@   ensures[local-modifiers-last] err == nil && len(modifiers) == 1 && len(userStr(3)) == 4 ==> userWrote(result)
 
 // NewInform (RFC 2131 4.4.3): DHCPINFORM, a BOOTREQUEST with the given hardware address and ciaddr = the local address.
 //@ contract NewInform
@@ -256,7 +257,7 @@ func userVal(k uint8) string { return "" }
 //@   ensures[header] defaultsOnly(err, modifiers) ==> int(result.OpCode) == 1 && result.ClientIPAddr == localIP && result.ClientHWAddr == hwaddr && int(result.Flags) == 0
 //@   ensures[type] defaultsOnly(err, modifiers) ==> msgType(result, 8)
 //@   ensures[nothing-else] defaultsOnly(err, modifiers) ==> (forall k uint8 :: {mapdom(result.Options, k)} k != 53 ==> !has(result.Options, k))
-//@   ensures[modifiers-last] err == nil && len(modifiers) == 1 && len(userStr(3)) == 4 ==> userWrote(result)
+//@   ensures[local-modifiers-last] err == nil && len(modifiers) == 1 && len(userStr(3)) == 4 ==> userWrote(result)
 
 // NewDiscovery (RFC 2131 4.4.1): DHCPDISCOVER, a BOOTREQUEST with the given hardware address and a parameter request list.
 //@ contract NewDiscovery
@@ -267,7 +268,7 @@ func userVal(k uint8) string { return "" }
 //@   ensures[type] defaultsOnly(err, modifiers) ==> msgType(result, 1)
 //@   ensures[prl] defaultsOnly(err, modifiers) ==> has(result.Options, 55)
 //@   ensures[nothing-else] defaultsOnly(err, modifiers) ==> (forall k uint8 :: {mapdom(result.Options, k)} k != 53 && k != 55 ==> !has(result.Options, k))
-//@   ensures[modifiers-last] err == nil && len(modifiers) == 1 && len(userStr(3)) == 4 ==> userWrote(result)
+//@   ensures[local-modifiers-last] err == nil && len(modifiers) == 1 && len(userStr(3)) == 4 ==> userWrote(result)
 
 // the remaining field setters of modifiers.go
 //@ contract WithTransactionID$1
